@@ -171,7 +171,17 @@ def unbuildable_casts(src):
                     p = a["pat"]
                     segs = p.get("segs") or (p.get("path") or {}).get("segs") or []
                     if len(segs) >= 2 and segs[-2] == "Function" and segs[-1].startswith("CastAs"):
-                        for c in find(a["body"], "call"):
+                        calls = list(find(a["body"], "call"))
+                        # a private helper of the file that wraps `function::cast(<its parameter>)` (e.g. `optional_cast(dt)`) is read through
+                        for c in list(calls):
+                            nm = path_of(c["f"]) or ""
+                            hs = [h for h in src.find_fns(name=nm.split("::")[-1], file="expr/implementation.rs") if not h.self_ty and h.body] if "::" not in nm else []
+                            if len(hs) == 1:
+                                hp = [p_["pat"]["name"] for p_ in hs[0].params if not p_.get("self") and p_["pat"]["k"] == "ident"]
+                                for hc in find(hs[0].body, "call"):
+                                    if is_call_to(hc, "function::cast") and hc["args"] and path_of(hc["args"][0]) in hp and hp.index(path_of(hc["args"][0])) < len(c["args"]):
+                                        calls.append(dict(hc, args=[c["args"][hp.index(path_of(hc["args"][0]))]]))
+                        for c in calls:
                             if is_call_to(c, "function::cast") and c["args"] and c["args"][0]["k"] == "call":
                                 ctor = (path_of(c["args"][0]["f"]) or "").rsplit("::", 1)[-1]
                                 target = "".join(x.capitalize() for x in ctor.split("_"))
@@ -245,6 +255,25 @@ def u1(rep, src):
                     continue  # `function.is_unique()` is the leaf test on the Function, not a descent
                 n += 1
                 ok = any(g[0] == "if" and pos_guard(g)[1] is True and pos_guard(g)[0]["k"] == "mcall" and pos_guard(g)[0]["m"] == "is_bijection" and not pos_guard(g)[0]["args"] for g in guards)
+
+                def arm_guarded(g):
+                    # `Expr::Function(Function { function, .. }) if function.is_bijection() => ..descent..`: the arm guard is the branch condition
+                    if g[0] != "arm":
+                        return False
+                    gd = g[1]["arms"][g[2]].get("guard")
+                    cs = [gd] if gd is not None else []
+                    out = []
+                    while cs:
+                        c = cs.pop()
+                        while is_node(c) and c.get("k") == "paren":
+                            c = c["e"]
+                        if is_node(c) and c.get("k") == "binary" and c["op"].strip() == "&&":
+                            cs += [c["lhs"], c["rhs"]]
+                        else:
+                            out.append(c)
+                    return any(is_node(c) and c.get("k") == "mcall" and c["m"] == "is_bijection" and not c["args"] for c in out)
+
+                ok = ok or any(arm_guarded(g) for g in guards)
                 rep.instance("U1", "Expr::%s@descent" % name, {"fn": f.qual, "recursive_call": show(x, 60), "guarded_by_is_bijection": ok})
                 if not ok:
                     rep.violation("U1", "Expr::%s@descent" % name, "Expr::%s descends into an argument outside the `function.is_bijection()` branch" % name, "src/%s:%d" % (BJ, x["l"]))
@@ -405,6 +434,9 @@ def u2(rep, src):
                 cnt = None
                 if init["op"] == "==":
                     for a, b in ((init["lhs"], init["rhs"]), (init["rhs"], init["lhs"])):
+                        hops2 = 0
+                        while a["k"] == "path" and len(a["segs"]) == 1 and a["segs"][0] in lets and hops2 < 4:  # `let first_count = ..count(); let flag = first_count == 1;`
+                            a, hops2 = lets[a["segs"][0]], hops2 + 1
                         if b["k"] == "lit" and b["t"] == "int" and str(b["v"]) == "1" and a["k"] == "mcall" and a["m"] in ("count", "len"):
                             cnt = a
                 if cnt is not None:
@@ -565,6 +597,10 @@ def u3(rep, src):
                 s = src_side[0]
                 side_of_var[l["pat"]["name"]] = s
                 c3 = c["args"][2]
+                if c3["k"] == "path" and len(c3["segs"]) == 1:  # `let left_constraint = if flag { .. } else { None }; Field::new(name, ty, left_constraint)`
+                    cl_lets = [x for x in find(init, "let") if x["pat"]["k"] == "ident" and x["pat"]["name"] == c3["segs"][0] and x.get("init") is not None]
+                    if len(cl_lets) == 1:
+                        c3 = cl_lets[0]["init"]
                 used = [i for i in (0, 1) if flags[i] in names_in(c3)]
                 shape_ok = False
                 if c3["k"] == "mcall" and c3["m"] == "unwrap_or" and show(c3["args"], 0) == "None" and c3["recv"]["k"] == "mcall" and c3["recv"]["m"] == "then_some" and path_of(c3["recv"]["recv"]) in flags:
@@ -624,6 +660,11 @@ def u3(rep, src):
         raise Anchor("expr_has_unique_constraint: expected (expr, left_schema, right_schema)")
     X, LS, RS = ep
     outer = block_value(e.body)
+    if outer is not None and outer["k"] == "if" and outer["cond"]["k"] == "letcond" and outer.get("else") is not None and path_of(outer["cond"]["e"]) == X:
+        # `let Expr::Function(f) = expr else { return (false, false) }; <rest>` (read as `if let .. { rest } else { .. }`) is the two-arm match on expr
+        outer = {"k": "match", "l": outer["l"], "e": outer["cond"]["e"], "arms": [
+            {"pat": outer["cond"]["pat"], "body": outer["then"], "l": outer["l"]},
+            {"pat": {"k": "wild", "l": outer["l"]}, "body": outer["else"], "l": outer["l"]}]}
     if outer is None or outer["k"] != "match" or path_of(outer["e"]) != X:
         rep.undecidable("U3", "expr_has_unique_constraint@shape", "not a `match expr`", e.where())
         return
@@ -671,13 +712,35 @@ def u3_and(rep, a, X, LS, RS, where):
             rec[l["pat"]["name"]] = ok
             if not ok:
                 rep.violation("U3", "expr_has_unique_constraint@And@recursion", "the recursive call does not pass (left_schema, right_schema) in order: %s" % show(init, 100), "src/%s:%d" % (RM, l["l"]))
+    # `let (x_left, x_right) = Self::expr_has_unique_constraint(..)`: the two names are x.0 and x.1 of that recursive answer
+    comp = {}
+    for l in find(body, "let"):
+        init = l.get("init")
+        if l["pat"]["k"] == "tuple" and len(l["pat"]["elems"]) == 2 and all(e_["k"] == "ident" for e_ in l["pat"]["elems"]) and init is not None and init["k"] == "call" and is_call_to(init, "expr_has_unique_constraint"):
+            ok = len(init["args"]) == 3 and [show(x, 0).lstrip("&") for x in init["args"][1:]] == [LS, RS]
+            rid_ = "#rec%d" % len(rec)
+            rec[rid_] = ok
+            for j, e_ in enumerate(l["pat"]["elems"]):
+                comp[e_["name"]] = (rid_, j)
+            if not ok:
+                rep.violation("U3", "expr_has_unique_constraint@And@recursion", "the recursive call does not pass (left_schema, right_schema) in order: %s" % show(init, 100), "src/%s:%d" % (RM, l["l"]))
+
+    def component(p):
+        """(recursive answer, index) a sub-expression stands for"""
+        if p["k"] == "field" and path_of(p["e"]) in rec and p["name"] in ("0", "1"):
+            return path_of(p["e"]), int(p["name"])
+        if p["k"] == "path" and len(p["segs"]) == 1 and p["segs"][0] in comp:
+            return comp[p["segs"][0]]
+        return None
+
     tv = block_value(body)
     rep.instance("U3", "expr_has_unique_constraint@And", {"result": show(tv, 80), "recursive_results": sorted(rec)})
     ok = tv is not None and tv["k"] == "tuple" and len(tv["elems"]) == 2 and len(rec) == 2
     if ok:
         for i, el in enumerate(tv["elems"]):
             parts = flat(el, "||") if el["k"] == "binary" and el["op"] == "||" else flat(el, "&&")
-            good = len(parts) == 2 and all(p["k"] == "field" and p["name"] == str(i) and path_of(p["e"]) in rec for p in parts) and {path_of(p["e"]) for p in parts} == set(rec)
+            cs = [component(p) for p in parts]
+            good = len(parts) == 2 and all(c is not None and c[1] == i for c in cs) and {c[0] for c in cs if c} == set(rec)
             if not good:
                 rep.violation("U3", "expr_has_unique_constraint@And", "component %d of the And answer is not `x.%d || y.%d` of the two recursive answers: %s" % (i, i, i, show(el, 60)), where)
     else:
@@ -801,6 +864,10 @@ def u4(rep, src):
     vp = [p["pat"]["name"] for p in f.params if "Value" in p["ty"]]
     lets = {l["pat"]["name"]: l["init"] for l in find(f.body, "let") if l["pat"]["k"] == "ident" and l.get("init") is not None}
     sites = [(x, g) for x, g in walk_guards(f.body) if x["k"] == "call" and show(x, 0) in ("Some(Constraint::Unique)", "Some(Constraint::PrimaryKey)")]
+    # `flag.then_some(Constraint::Unique)` is `if flag { Some(Constraint::Unique) } else { None }`
+    for x, g in walk_guards(f.body):
+        if x["k"] == "mcall" and x["m"] in ("then_some", "then") and len(x["args"]) == 1 and show(x["args"][0], 0).replace(" ", "").replace("||", "") in ("Constraint::Unique", "Constraint::PrimaryKey"):
+            sites.append((x, tuple(g) + (("if", x["recv"], True),)))
     if not sites or len(vp) != 1:
         rep.undecidable("U4", "Values::schema@site", "no Some(Constraint::Unique) site / values parameter found", f.where())
         return
